@@ -39,7 +39,7 @@ import subprocess
 import sys
 import tempfile
 
-from harness.runs_common import (BoundedCheck, OUTCOMES, OUTCOMES8, Interp, run2, flag_args, tag_args,
+from harness.runs_common import (BoundedCheck, OUTCOMES, Interp, run2, flag_args, tag_args,
                                  T, NOT, AND, step, scenario, outline, rule, feature, render,
                                  short)
 
@@ -369,12 +369,11 @@ def exit_code_cases(tier):
         return [feature("F", [scenario(name, [step("s%d" % i, o) for i, o in enumerate(steps)], list(tags))])]
     two = [feature("F", [scenario("SA", [step("a0", "fail")], ["x"]),
                          rule("R", [scenario("SB", [step("b0", "pass")], ["y"])])])]
-    cases = [
-        {"trees": f(["pass", "pass"])},
-        {"trees": f(["pass", "fail"])},
-    ]
-    if tier != "quick":
+    cases = []
+    if tier != "quick":         # child processes only in the thorough tier
         cases += [
+            {"trees": f(["pass", "pass"])},
+            {"trees": f(["pass", "fail"])},
             {"trees": f(["error"])},
             {"trees": f(["undefined"])},
             {"trees": f(["undefined"]), "dry_run": True},
@@ -455,9 +454,9 @@ CHECKS = [
                  "went wrong"),
     BoundedCheck(
         "exit-code",
-        bound={"quick": "2 scratch directories (features/ + steps/) run with `python -m behave` in a child "
-                        "process: all-pass, one failing step",
-               "thorough": "21 scratch directories: outcomes pass/fail/error/undefined/pending/@wip pending/skip, "
+        bound={"quick": "not run in the quick tier (child processes only in thorough): 0 cases",
+               "thorough": "21 scratch directories (features/ + steps/ [+ environment.py]) run with `python -m behave` "
+                           "in a child process: outcomes pass/fail/error/undefined/pending/@wip pending/skip, "
                            "dry-run, raising cleanup, raising hooks in environment.py (after_scenario, before_all, "
                            "after_all, before_tag never invoked, after_tag, before_step in dry-run), tag selection "
                            "with --stop"},
